@@ -105,14 +105,34 @@ impl Check for C11 {
 
     fn run(&self, run: &Run) {
         let q = false;
+        let deep = !run.tier.quick();
+        // thorough: every rotation by a multiple of 7.5 degrees x 3 scales x 2 translations on top
+        let mut xfs_i: Vec<Xf> = XFS.to_vec();
+        let mut xfs_ii: Vec<Xf> = XFS[..9].to_vec();
+        if deep {
+            for k in 0..48 {
+                let a = (k as f32) * 7.5f32.to_radians();
+                for sc in [0.5f32, 1.0, 1.7] {
+                    for (tx, ty) in [(0.0f32, 0.0f32), (0.3, 0.6)] {
+                        let (c, s) = (a.cos() * sc, a.sin() * sc);
+                        // rotate about the middle of the 8x8 surface
+                        let x: Xf = [c, s, -s, c, 4.0 - 4.0 * c + 4.0 * s + tx, 4.0 - 4.0 * s - 4.0 * c + ty];
+                        xfs_i.push(x);
+                        if k % 4 == 1 {
+                            xfs_ii.push(x);
+                        }
+                    }
+                }
+            }
+        }
         run.rule("pairs of scenes that the property declares equivalent are executed on identical initial contents and must give bit-identical surfaces: (i) fill(p) under T vs fill(Path::transform(p, T)) under the identity, 11 transforms x paths (triangles over a 3x3 off-grid set, curves, arcs, even-odd ring, no-MoveTo path) x 2 aa x sources; (ii) stroke under T vs NonZero fill of stroke_to_path(p).transform(T); (iii) CTM T with source transform T vs identity/identity for exactly invertible T; (iv) singular T leaves the target unchanged for every drawing call and context; (v) push_clip_rect / mask / copy_surface / blend_surface under T vs under I; (vi) get_transform() bit-identical after clear and pop_layer; non-trivial = the scene changed pixels");
         let ps = paths(q);
         let white = SrcSpec::Solid(0xffffffff);
         let half = SrcSpec::Solid(0x80402010);
         // (i) fill under T vs pre-transformed path
-        run.bound("fill-vs-pretransformed", format!("{} paths x 11 transforms x 2 aa x 2 rules x 2 sources/modes", ps.len()));
+        run.bound("fill-vs-pretransformed", format!("{} paths x {} transforms x 2 aa x 2 rules x 2 sources/modes", ps.len(), xfs_i.len()));
         run.par(ps.len(), |pi, l| {
-            for (ti, xf) in XFS.iter().enumerate() {
+            for (ti, xf) in xfs_i.iter().enumerate() {
                 for aa in [true, false] {
                     for eo in [false, true] {
                         for (src, mode) in [(white.clone(), BlendMode::SrcOver), (half.clone(), BlendMode::Xor)] {
@@ -157,12 +177,12 @@ impl Check for C11 {
             StyleSpec { width: 2.0, cap: 1, join: 1, miter: 4., dash: vec![], offset: 0. },
             StyleSpec { width: 0.75, cap: 2, join: 2, miter: 4., dash: vec![], offset: 0. },
         ];
-        run.bound("stroke-vs-outline", format!("{} straight paths x 9 invertible transforms x {} styles", ps.len() - 7, styles.len()));
+        run.bound("stroke-vs-outline", format!("{} straight paths x {} invertible transforms x {} styles", ps.len() - 7, xfs_ii.len(), styles.len()));
         run.par(ps.len(), |pi, l| {
             if ps[pi].ops.iter().any(|o| matches!(o, POp::Q(..) | POp::C(..) | POp::A(..))) {
                 return;
             }
-            for (ti, xf) in XFS.iter().enumerate().take(9) {
+            for (ti, xf) in xfs_ii.iter().enumerate() {
                 for st in &styles {
                     let a = Scene { w: S, h: S, dst: Dst::Distinct, ops: vec![Op::SetTransform(*xf), Op::Stroke(ps[pi].clone(), st.clone(), white.clone(), Opts::default())] };
                     let outline = spec_from_path(&stroke_to_path(&ps[pi].build(), &st.to()).transform(&xf_to(xf)));
